@@ -88,7 +88,35 @@ def is_sorted(I, args, kw):
     return adjacent(I, [L, Builtin("lex_le", lambda I, a, k: le(a[0], a[1]))], {})
 
 
+def first_index(I, args, kw):
+    L, p = args
+    items = I.try_iter_concrete(L)
+    if items is not None:
+        for i, e in enumerate(items):
+            if I.truth(I.call(p, [e], {}), "first_index"):
+                return i
+        return -1
+    t = L.term
+    b, m = listops.exists_in(I, t, lambda e, i: _pure_call(I, p, e), "first_index")
+    k = m.idx
+
+    def before(elem, idx):
+        return z3.Implies(idx < k, z3.Not(_pure_call(I, p, elem)))
+    t.all_facts.append((b, before, "first-index"))
+    return z3.If(b, k, z3.IntVal(-1))
+
+
+def remove_at(I, args, kw):
+    L, i = args
+    items = I.try_iter_concrete(L)
+    if items is not None and isinstance(i, int):
+        return I.new_list(items[:i] + items[i + 1:])
+    return I.new_alist(listops.RemoveAt(I, L.term, i))
+
+
 INTRINSICS = {
+    "spec.prims.first_index": first_index,
+    "spec.prims.remove_at": remove_at,
     "spec.prims.forall": forall,
     "spec.prims.exists": exists,
     "spec.prims.pairwise": pairwise,
